@@ -4,7 +4,8 @@ from lib.semcheck import impl, model_expr, compare, oracle, describe, shrink, IM
 
 ID = 'C05'
 THEOREMS = ['C05_cut_code_correct', 'C05_compiled_program_computes_reference', 'C05_cut_prunes_later_clauses', 'C05_no_cut_continues', 'C05_cut_local_to_predicate', 'C05_query_result_after_cut', 'C05_cut_spec_readable', 'C05_cut_first']
-CASE_TIMEOUT = 20
+CASE_TIMEOUT = 60
+MODEL_NEEDS_IMPL = True
 COQ_CHUNK = 20
 RULE = ('random programs as for C01 whose bodies also contain ! at the top level of a body, in disjunction branches and in then/else branches '
         '(never inside a condition or under \\+), with predicates of 2-4 clauses, callers that have their own alternatives, leaf solution counts '
